@@ -24,8 +24,14 @@ static inline fp80_t FP80_POW2(int e){ fp80_t r=1; while(e>0){r*=2;e--;} while(e
 /* C++ allows nullptr - nullptr and comparing equal pointers of any provenance; keep CBMC's same-object checks for the rest */
 #define RT_PTRDIFF(p, q) (((char*)(p) == (char*)(q)) ? 0L : (long)((char*)(p) - (char*)(q)))
 #define RT_PTRREL(p, op, q, eq) (((char*)(p) == (char*)(q)) ? (eq) : ((char*)(p) op (char*)(q)))
+/* checked narrowing helpers: does the W-bit value v, read as signed, fit B signed bits? */
+#define RT_SFITS64(v, B) ((unsigned long)((unsigned long)(v) + (1UL << ((B) - 1))) < (1UL << (B)))
+#define RT_SFITS128(v, B) ((unsigned __int128)((unsigned __int128)(v) + (((unsigned __int128)1) << ((B) - 1))) < (((unsigned __int128)1) << (B)))
+#define RT_SNEG64(v) ((long)(v) < 0)
+#define RT_SNEG128(v) ((__int128)(v) < 0)
 #define BITCAST(dt, st, v) ({ union { st a; dt b; } u_; u_.a = (v); u_.b; })
 
+struct rt_string { unsigned char *p; unsigned long len; union { unsigned char buf[16]; unsigned long cap; } u; };
 /* ---- exceptions lowered to a pending flag + type id ---- */
 enum { RT_TI_NONE=0, RT_TI_ALL=1,
        RT_TI__ZTISt9exception, RT_TI__ZTISt11logic_error, RT_TI__ZTISt16invalid_argument, RT_TI__ZTISt12length_error,
